@@ -8,6 +8,8 @@
 (*                      the export of  design(load(previous export))          -> Fixpoint* clauses               *)
 (*   "Twin"      x    = export of a second, independent design of the same input as the last Export              *)
 (*                                                                            -> Deterministic                   *)
+(*   "Elsewhere" = another designed_network() call (other options: an explicit design power) was made with the   *)
+(*                      same equipment library between the design just exported and its Twin                     *)
 (*   "Propagate" r, slack = result vector of the reference propagation on the network just exported; slack is    *)
 (*                      the export-rounding allowance for the comparison with the previous one                   *)
 (*                                                                            -> PropagationReproduced           *)
@@ -45,7 +47,8 @@ DesignClauses(In, G, S) ==
               \cup Check("EveryAmpConfigured", EveryAmpConfigured(G, S))
               \cup Check("EveryFiberHasConnectors", EveryFiberHasConnectors(G))
               \cup Check("DefaultConnectorsApplied", DefaultConnectorsApplied(In, G, S))
-              \cup Check("SpanAtLeastPadding", SpanAtLeastPadding(G, S)))
+              \cup Check("SpanAtLeastPadding", SpanAtLeastPadding(G, S))
+              \cup Check("UserAttenuatorKept", UserAttenuatorKept(In, G)))
 
 ExportClauses(prev, x, prefix) ==
     Check(prefix \o "Elements", ElementsSame(prev, x))
@@ -84,6 +87,8 @@ Next ==
             [] e.op = "Sim" ->
                  /\ viol' = viol \cup {<<i + 1, c>> : c \in Check("SimParamsUnchanged", e.before = e.after)}
                  /\ UNCHANGED <<lastX, lastR, diff>>
+            [] e.op = "Elsewhere" ->      \* the same library was used for another design (explicit power): nothing to judge
+                 UNCHANGED <<lastX, lastR, viol, diff>>
             [] OTHER ->
                  /\ viol' = viol \cup {<<i + 1, "UnknownEvent">>}
                  /\ UNCHANGED <<lastX, lastR, diff>>
